@@ -104,7 +104,7 @@ theorem objective_det (obj : List ℝ → ℝ) (D : Deriv ℝ) (cap : Option Nat
   · intro fn pl fn' pl' h1 h2
     exact ⟨h1.1, h2.2⟩
   · intro fn pl x fn' pl' v hJ h
-    exact (key _ _ _ _ _ _ hJ h).2.2
+    exact ⟨x, (key _ _ _ _ _ _ hJ h).2.2, rfl⟩
   · intro fn pl x fn' v hJ hx h
     obtain ⟨⟨q, rfl, hq, hp, hc⟩, hk, hl, hag⟩ := hJ
     obtain ⟨rfl, rfl⟩ := iface_f_ok obj D cap _ _ _ _ h
@@ -123,6 +123,6 @@ theorem objective_det (obj : List ℝ → ℝ) (D : Deriv ℝ) (cap : Option Nat
     rw [setValueAt, hs] at h
     simp only [Except.ok.injEq] at h
     subst h
-    exact ⟨⟨⟨_, rfl, hq, hp', hc'⟩, hk, hl, hag⟩, by simp [value0, hv]⟩
+    exact ⟨⟨⟨_, rfl, hq, hp', hc'⟩, hk, hl, hag⟩, x, by simp [value0, hv], rfl⟩
 
 end Bpp.Optim
